@@ -51,6 +51,7 @@ VALID_KW = [
     {'performance_model': 'perf_alt.toml'},
     {'emissions': {'pmvol_method': 'foa3', 'gse_enabled': False}},
     {'emissions': {'lifecycle_enabled': False, 'sox_enabled': False}},
+    {'weather': {'use_weather': False, 'weather_data_dir': None}},   # optional value explicitly unset
 ]
 INVALID_VALUE_KW = [
     {'emissions': {'nox_method': 'bogus'}},
@@ -394,6 +395,8 @@ def gen_op(rng: random.Random, sim: ConfigSim, cfg):
             if rng.random() < 0.4:
                 data = copy.deepcopy(rng.choice(VALID_KW))
                 data.pop('performance_model', None)
+                data = {k_: ({a: b for a, b in v.items() if b is not None} if isinstance(v, dict) else v)
+                        for k_, v in data.items()}
                 op.update(file='cfg-%s.toml' % short_hash(data)[:6], file_data=data)
         elif r < cfg['p_valid'] + 0.25:
             op.update(expect='invalid', kind='invalid_value', kwargs=copy.deepcopy(rng.choice(INVALID_VALUE_KW)))
